@@ -243,6 +243,19 @@ template <class G> std::vector<ConstOp<G>> constOps() {
             else io::writeTextEdgeList(g, f);
             return slurp(f);
         });
+        // distinct files whose names differ only in the part after the last dot
+        add("writeTextEdgeList (same stem, other extension)", true, [](const G &g, int tid) {
+            std::string f = g_tmpdir + "/shared.t" + std::to_string(tid);
+            if constexpr (T::labelled) io::writeTextEdgeList(g, f, std::function<std::string(const L &)>([](const L &l) { return labelStr(l); }));
+            else io::writeTextEdgeList(g, f);
+            return slurp(f);
+        });
+        if constexpr (std::is_trivially_copyable<L>::value)
+            add("writeBinaryEdgeList (same stem, other extension)", false, [](const G &g, int tid) {
+                std::string f = g_tmpdir + "/shared.b" + std::to_string(tid);
+                io::writeBinaryEdgeList(g, f);
+                return slurp(f);
+            });
         if constexpr (std::is_trivially_copyable<L>::value)
             add("writeBinaryEdgeList", true, [](const G &g, int tid) {
                 std::string f = g_tmpdir + "/t" + std::to_string(tid) + ".bin";
